@@ -1,4 +1,4 @@
-"""C08 - router: first match, typed parameters.  Rules R8.1 - R8.5 (DESIGN.md section C08)."""
+"""C08 - router: first match, typed parameters.  Rules R8.1 - R8.7 (DESIGN.md section C08)."""
 from __future__ import annotations
 
 import ast
@@ -61,7 +61,12 @@ def run(p: Program, rep: Report, tier: str) -> None:
         "fullmatch and compiled without flags; (R8.3) provenance: literal route text must pass re.escape "
         "before re.compile; (R8.4) first match in declaration order + 404 fallback + path-parameter key "
         "agreement, on all paths of search()/Router.__call__; (R8.5) to_python is total on its own regex "
-        "language or guarded. NOT decided: the to_string/to_python round trip on values."
+        "language or guarded; (R8.6) the text to_string produces for the values to_python can return: the regular "
+        "language of every return path (frozen renderings of the stdlib formatters composed with the images of "
+        "rstrip/lstrip/strip/lower/upper and the path's membership tests) is included in the placeholder's language, zero "
+        "stripping is applied only to texts that all contain a '.', and to_python applies the constructor the formatter "
+        "inverts; (R8.7) the date convertor slices the digit runs of its own regex in year, month, day order. The value-level "
+        "equality of the round trip rests on the frozen facts about the formatters (stated in RENDER)."
     )
     rep.assume("re semantics of the supported regex subset; alphabet = Latin-1 + Unicode class representatives (see sa/rx.py)")
     F = Folder(p)
@@ -246,6 +251,13 @@ def run(p: Program, rep: Report, tier: str) -> None:
                 f = c.func
                 if isinstance(f, ast.Attribute) and f.attr in ("sort", "reverse", "insert") and isinstance(f.value, ast.Attribute) and f.value.attr == arr_attr:
                     rep.violation("R8.4", construct(fn, c), where(fn, c), "route table is re-ordered after construction")
+    # (a') the lookup is recomputed per request: search()/matches() return a fresh mutable params dict, so a memo around
+    # them hands the same dict to every later request for that path (and keeps stale results)
+    from ..common import memoised
+    for fnm in [search, matches] + [m for m in (p.find_method(p.cls(f"baize.{s}.routing:Router"), "__call__") for s in ("wsgi", "asgi")) if m is not None]:
+        for loc, how in memoised(p, fnm):
+            rep.violation("R8.4", construct(fnm, text="memoised: " + how.split("(")[0]), loc,
+                          f"{fnm.fq} is wrapped in a cache ({how}): the (route, params) result - a mutable dict - is shared between requests for the same path instead of being computed per request")
     # (b) path-level: first truthy match returns inside the loop, fallback None
     paths, col, it = run_paths(p, search, router)
     rep.cfg_paths += len(paths)
@@ -334,6 +346,8 @@ def run(p: Program, rep: Report, tier: str) -> None:
             if name is None:
                 continue
             cons = construct(tp, c)
+            if name == "datetime.date.fromisoformat":
+                name = "datetime.date"  # validates the calendar exactly like the constructor
             if name == "int" or name == "datetime.date" or name == "datetime.datetime":
                 # not total: int() has the 4300-digit limit; date() validates the calendar
                 lang_unbounded = _unbounded(regex)
@@ -359,6 +373,8 @@ def run(p: Program, rep: Report, tier: str) -> None:
                 else:
                     rep.violation("R8.5", cons, where(tp, c), f"{name}({rx.show(only_lang)}) raises: the convertor's language {regex!r} is not inside the constructor's domain", witness=rx.show(only_lang))
     rep.require_instances("R8.5", 4)
+
+    _round_trip(p, rep, F, table)
 
 
 def _ctor_names(p: Program, fn: FuncInfo) -> List[str]:
@@ -418,3 +434,341 @@ def _inside_value_error_handler(p: Program, matches: FuncInfo) -> bool:
 
 def _has(root: ast.AST, node: ast.AST) -> bool:
     return any(x is node for x in ast.walk(root))
+
+
+# ----------------------------------------------------------------------------- R8.6 / R8.7
+# Renderings of the values in the IMAGE of to_python (non-negative, finite, exponent <= 0 ...), per
+# (declared type of `value`, formatter).  Frozen facts about the stdlib, each with the reason.
+DIG = "[0-9]"
+RENDER = {
+    # str(int) of a non-negative int: canonical decimal digits; int(str(n)) == n
+    ("int", "str"): r"0|[1-9][0-9]*",
+    # str(Decimal) switches to scientific notation when the adjusted exponent is < -6 ('1E-7'); the image has no
+    # positive exponent.  Decimal(str(d)) == d but the text is not always in the placeholder's language.
+    ("decimal.Decimal", "str"): r"[0-9]+(\.[0-9]+)?(E-[0-9]+)?",
+    ("decimal.Decimal", "format:"): r"[0-9]+(\.[0-9]+)?(E-[0-9]+)?",
+    # format(d, 'f') never uses an exponent and keeps every digit: Decimal(format(d, 'f')) == d
+    ("decimal.Decimal", "format:f"): r"[0-9]+(\.[0-9]+)?",
+    # after normalize() the exponent may be positive ('1E+2'); 'f' pads it with zeros again
+    ("decimal.Decimal/normalized", "str"): r"[0-9]+(\.[0-9]+)?(E[+-][0-9]+)?",
+    ("decimal.Decimal/normalized", "format:"): r"[0-9]+(\.[0-9]+)?(E[+-][0-9]+)?",
+    ("decimal.Decimal/normalized", "format:f"): r"[0-9]+(\.[0-9]+)?",
+    # str(UUID) is the canonical lower-case 8-4-4-4-12 form; UUID(str(u)) == u
+    ("uuid.UUID", "str"): r"[0-9a-f]{8}-[0-9a-f]{4}-[0-9a-f]{4}-[0-9a-f]{4}-[0-9a-f]{12}",
+    # date.isoformat()/str(date) zero-pad the year to four digits
+    ("datetime.date", "isoformat"): r"[0-9]{4}-[0-9]{2}-[0-9]{2}",
+    ("datetime.date", "str"): r"[0-9]{4}-[0-9]{2}-[0-9]{2}",
+}
+# int attributes of a date: (min digits, max digits) of str(); f'{x:0Nd}' pads to at least N digits
+INT_ATTR = {("datetime.date", "year"): (1, 4), ("datetime.date", "month"): (1, 2), ("datetime.date", "day"): (1, 2)}
+# strftime directives: %Y is NOT zero padded by glibc for years below 1000 ('987', '1')
+STRFTIME = {"Y": r"[0-9]{1,4}", "m": r"[0-9]{2}", "d": r"[0-9]{2}", "%": "%", "F": r"[0-9]{1,4}-[0-9]{2}-[0-9]{2}"}
+# the constructor each formatter inverts (to_python must apply it to the whole segment)
+INVERSE = {"int": "int", "decimal.Decimal": "decimal.Decimal", "uuid.UUID": "uuid.UUID"}
+NUMERIC = ("int", "decimal.Decimal")
+ANYSTR = r"[\x00-\U0010ffff]*"
+
+
+class _Unknown(Exception):
+    pass
+
+
+def _type_of_value(p: Program, fn: FuncInfo) -> Optional[str]:
+    a = fn.node.args.args
+    if len(a) < 2 or a[1].annotation is None:
+        return None
+    ann = a[1].annotation
+    r = p.resolve_dotted(fn.module, ann)
+    if isinstance(r, tuple) and r[0] in ("ext", "builtin"):
+        return r[1]
+    if r is None and isinstance(ann, ast.Name) and ann.id in ("str", "int") and ann.id not in fn.module.constants:
+        return ann.id
+    return None
+
+
+def _round_trip(p: Program, rep: Report, F: Folder, table: Dict[str, ClassInfo]) -> None:
+    route = p.cls("baize.routing:Route")
+    for key, ci in table.items():
+        ts = p.find_method(ci, "to_string")
+        tp = p.find_method(ci, "to_python")
+        if ts is None or tp is None or key not in SPEC:
+            continue
+        try:
+            regex = F.class_attr(ci, "regex")
+        except NotConst:
+            continue
+        rep.analysed(ts.fq)
+        T = _type_of_value(p, ts)
+        if T is None:
+            rep.undecide("R8.6", f"{ci.name}.to_string: the type of `value` is not a resolvable annotation")
+            continue
+        paths, col, it = run_paths(p, ts, ci)
+        rep.cfg_paths += len(paths)
+        rets = [pa for pa in paths if pa.exit == "return"]
+        if not rets:
+            rep.violation("R8.6", construct(ts, text="no return"), where(ts), f"{ci.name}.to_string never returns a text")
+        # ---- the inverse constructor
+        tpaths, _, _ = run_paths(p, tp, ci)
+        rep.cfg_paths += len(tpaths)
+        for pa in [x for x in tpaths if x.exit == "return"]:
+            v = pa.value
+            ok = None
+            if T == "str":
+                ok = v == ("param", "value")
+            elif T in INVERSE:
+                ok = v[0] == "call" and v[1] in (("ext", INVERSE[T]), ("builtin", INVERSE[T])) and v[2] == (("param", "value"),) and not v[3]
+            elif T == "datetime.date":
+                ok = _date_fields(p, rep, ci, tp, v, regex)
+            if ok:
+                rep.ok("R8.6", f"{ci.name}.to_python applies the constructor that the formatter inverts: {show(v)[:70]}")
+            elif ok is False:
+                rep.violation("R8.6", construct(tp, text=f"return {show(v)[:80]}"), where(tp),
+                              f"{ci.name}.to_python does not return {INVERSE.get(T, 'the value')}(value) of the whole segment: the path parameter is not the value the text denotes / to_string no longer inverts it")
+        # ---- the language of to_string's results
+        pats = [regex, ANYSTR] + list(RENDER.values()) + list(STRFTIME.values())
+        for pa in rets:
+            consts = [t[1] for t in _subterms_all(pa.value) if t[0] == "const" and isinstance(t[1], str)]
+            for f, _ in pa.facts:
+                consts += [t[1] for t in _subterms_all(f) if t[0] == "const" and isinstance(t[1], str)]
+            al = rx.alphabet_for([rx.Regex(x) for x in pats] + [rx.Regex(re.escape(c)) for c in consts if c])
+            target = rx.dfa_of(regex, al)
+            ev = _LangEval(p, rep, ci, ts, T, pa, al)
+            try:
+                d = ev.lang(pa.value)
+            except _Unknown as e:
+                rep.undecide("R8.6", f"{ci.name}.to_string: cannot derive the language of `{show(pa.value)[:70]}` ({e})")
+                continue
+            except rx.Unsupported as e:
+                rep.undecide("R8.6", f"{ci.name}.to_string: {e}")
+                continue
+            w = rx.difference_witness(d, target)
+            if w is not None:
+                rep.violation("R8.6", construct(ts, text=f"return {show(pa.value)[:90]}"), where(ts),
+                              f"{ci.name}.to_string can produce {rx.show(w)} for a value that its own to_python returns: the {key!r} placeholder {regex!r} rejects that text (round trip broken)",
+                              witness=rx.show(w), path_facts=pa.fact_text()[:6])
+            elif not ev.bad:
+                rep.ok("R8.6", f"{ci.name}.to_string: every text of `{show(pa.value)[:60]}` is in L({regex!r}) and denotes the same value", {"states": d.n})
+    rep.require_instances("R8.6", 9)
+    rep.require_instances("R8.7", 1)
+
+
+def _subterms_all(v):
+    if isinstance(v, tuple):
+        if v and isinstance(v[0], str):
+            yield v
+        for x in v:
+            yield from _subterms_all(x)
+
+
+class _LangEval:
+    def __init__(self, p, rep, ci, fn, T, pa, al):
+        self.p, self.rep, self.ci, self.fn, self.T, self.pa, self.al = p, rep, ci, fn, T, pa, al
+        self.bad = False
+
+    def dfa(self, pattern: str):
+        return rx.dfa_of(pattern, self.al)
+
+    def render(self, how: str, T: Optional[str] = None):
+        T = T or self.T
+        if (T, how) not in RENDER:
+            raise _Unknown(f"no frozen rendering for {how} of a {T}")
+        return self.dfa(RENDER[(T, how)])
+
+    def value_kind(self, v) -> Optional[str]:
+        """`value` itself, or a value-preserving view of it"""
+        if v == ("param", "value"):
+            return self.T
+        if v[0] == "call" and v[1][0] == "attr" and v[1][2] == "normalize" and self.T == "decimal.Decimal" and self.value_kind(v[1][1]):
+            return "decimal.Decimal/normalized"
+        return None
+
+    def lang(self, v):
+        d = self._lang(v)
+        # membership tests of the path on this very text
+        for f, t in self.pa.facts:
+            if f[0] == "cmp" and f[1] in ("In", "NotIn") and f[3] == v and f[2][0] == "const" and isinstance(f[2][1], str):
+                pos = t if f[1] == "In" else not t
+                d = rx.intersect(d, self._contains(f[2][1], pos))
+            elif f == v:
+                d = rx.intersect(d, self.dfa(r"[\x00-\U0010ffff]+" if t else ""))
+        return d
+
+    def _contains(self, needle: str, pos: bool):
+        if len(needle) != 1:
+            if pos:
+                return self.dfa(f"{ANYSTR}{re.escape(needle)}{ANYSTR}")
+            raise _Unknown("negative multi-character membership test")
+        c = "\\x%02x" % ord(needle) if ord(needle) < 256 else re.escape(needle)
+        return self.dfa(f"{ANYSTR}{c}{ANYSTR}" if pos else f"[^{c}]*")
+
+    def _lang(self, v):
+        k = v[0]
+        T = self.T
+        if k == "const" and isinstance(v[1], str):
+            return self.dfa(re.escape(v[1]))
+        if v == ("param", "value") and T == "str":
+            return self.dfa(self._image())
+        if k == "call":
+            callee, args, kws = v[1], v[2], v[3]
+            if callee == ("builtin", "str") and len(args) == 1 and not kws:
+                vk = self.value_kind(args[0])
+                if vk == "str":
+                    return self.dfa(self._image())
+                if vk:
+                    return self.render("str", vk)
+                return self.lang(args[0])  # str() of a str
+            if callee == ("builtin", "format") and len(args) == 2 and args[1][0] == "const":
+                vk = self.value_kind(args[0])
+                if vk:
+                    return self.render(f"format:{args[1][1]}", vk)
+            if callee[0] == "attr":
+                recv, meth = callee[1], callee[2]
+                vk = self.value_kind(recv)
+                if vk and meth in ("isoformat", "__str__") and not args:
+                    return self.render("isoformat" if meth == "isoformat" else "str", vk)
+                if vk and meth == "__format__" and len(args) == 1 and args[0][0] == "const":
+                    return self.render(f"format:{args[0][1]}", vk)
+                if vk == "datetime.date" and meth == "strftime" and len(args) == 1 and args[0][0] == "const" and isinstance(args[0][1], str):
+                    return self.dfa(self._strftime(args[0][1]))
+                if recv[0] == "const" and isinstance(recv[1], str) and meth == "format" and len(args) == 1 and not kws:
+                    m = re.fullmatch(r"([^{}]*)\{(?:0)?(?::([^{}]*))?\}([^{}]*)", recv[1])
+                    vk = self.value_kind(args[0])
+                    if m and vk:
+                        body = RENDER.get((vk, f"format:{m.group(2) or ''}"))
+                        if body is None:
+                            raise _Unknown(f"no frozen rendering for format spec {m.group(2)!r} of a {vk}")
+                        return self.dfa(re.escape(m.group(1)) + f"(?:{body})" + re.escape(m.group(3)))
+                if vk is None and meth in ("rstrip", "lstrip", "strip", "lower", "upper", "removesuffix", "removeprefix"):
+                    base = self.lang(recv)
+                    if meth in ("lower", "upper") and not args:
+                        def mp(c, meth=meth):
+                            t = getattr(chr(c), meth)()
+                            return ord(t) if len(t) == 1 else c
+                        return rx.map_lang(base, mp)
+                    if meth in ("rstrip", "lstrip", "strip") and len(args) == 1 and args[0][0] == "const" and isinstance(args[0][1], str):
+                        chars = [ord(c) for c in args[0][1]]
+                        self._value_preserving(v, recv, base, meth, args[0][1])
+                        out = base
+                        if meth in ("rstrip", "strip"):
+                            out = rx.rstrip_lang(out, chars)
+                        if meth in ("lstrip", "strip"):
+                            out = rx.lstrip_lang(out, chars)
+                        return out
+                    raise _Unknown(f"no language transformer for .{meth}{show(('tuple', args))}")
+        if k == "fstr":
+            pat = ""
+            for part in v[1]:
+                if part[0] == "const" and isinstance(part[1], str):
+                    pat += re.escape(part[1])
+                elif part[0] == "fmt" and self.value_kind(part[1]) and part[2] in ("", "s"):
+                    spec = part[3]
+                    spec = spec[2:-1] if spec.startswith("f'") or spec.startswith('f"') else spec
+                    how = "str" if (part[2] == "s" or spec == "") else f"format:{spec}"
+                    body = RENDER.get((self.value_kind(part[1]), how))
+                    if body is None:
+                        raise _Unknown(f"no frozen rendering for {how} of a {self.value_kind(part[1])}")
+                    pat += f"(?:{body})"
+                elif self.value_kind(part):
+                    body = RENDER.get((self.value_kind(part), "str"))
+                    if body is None:
+                        raise _Unknown("f-string part")
+                    pat += f"(?:{body})"
+                elif self._int_attr(part) is not None:
+                    lo, hi = self._int_attr(part)
+                    pat += "[0-9]{%d,%d}" % (lo, hi)
+                elif part[0] == "fmt" and self._int_attr(part[1]) is not None and part[2] == "":
+                    lo, hi = self._int_attr(part[1])
+                    spec = part[3]
+                    spec = spec[2:-1] if spec.startswith("f'") or spec.startswith('f"') else spec
+                    m = re.fullmatch(r"0?([0-9]*)d?", spec)
+                    if not m or (m.group(1) and not spec.startswith("0")):
+                        raise _Unknown(f"format spec {spec!r} of an int attribute")
+                    n = int(m.group(1) or 0)
+                    pat += "[0-9]{%d,%d}" % (max(lo, n), max(hi, n))
+                else:
+                    raise _Unknown(f"f-string part {show(part)[:40]}")
+            return self.dfa(pat)
+        raise _Unknown(f"unrecognised rendering {show(v)[:60]}")
+
+    def _int_attr(self, v):
+        if v[0] == "attr" and self.value_kind(v[1]):
+            return INT_ATTR.get((self.value_kind(v[1]), v[2]))
+        return None
+
+    def _image(self) -> str:
+        # for the str convertor the image of to_python is the placeholder's own language restricted by nothing
+        return ANYSTR
+
+    def _strftime(self, fmt: str) -> str:
+        out = ""
+        i = 0
+        while i < len(fmt):
+            if fmt[i] == "%" and i + 1 < len(fmt):
+                d = fmt[i + 1]
+                if d not in STRFTIME:
+                    raise _Unknown(f"strftime directive %{d}")
+                out += f"(?:{STRFTIME[d]})"
+                i += 2
+            else:
+                out += re.escape(fmt[i])
+                i += 1
+        return out
+
+    def _value_preserving(self, v, recv, base, meth: str, chars: str) -> None:
+        """A numeric text keeps its value under zero stripping only on the fractional side: every operand must
+        contain a '.' when trailing zeros are stripped; leading-zero stripping is judged by the language check."""
+        if self.T not in NUMERIC:
+            return
+        digits = [c for c in chars if c.isdigit()]
+        if meth in ("rstrip", "strip") and digits:
+            whole = rx.intersect(base, self.dfa("[^.]*" + "[" + "".join(digits) + "]"))
+            w = whole.shortest()
+            if w is not None:
+                self.bad = True
+                txt = "".join(chr(c) for c in w)
+                self.rep.violation("R8.6", construct(self.fn, text=f"{show(recv)[:60]}.{meth}({chars!r}) on a text without '.'"), where(self.fn),
+                                   f"{self.ci.name}.to_string strips trailing {'/'.join(digits)} from texts that may have no fraction part: {txt!r} becomes {txt.rstrip(chars)!r} "
+                                   "(Decimal('100') is rendered '1'): the round trip does not give an equal value", witness=txt, path_facts=self.pa.fact_text()[:6])
+
+
+def _date_fields(p: Program, rep: Report, ci: ClassInfo, tp: FuncInfo, v, regex: str) -> Optional[bool]:
+    """R8.7: date(int(value[a:b]), int(value[c:d]), int(value[e:f])) must slice the digit runs of the regex in
+    year, month, day order (or use date.fromisoformat(value))."""
+    import re._constants as C
+    import re._parser as P
+
+    if v[0] == "call" and v[1] in (("ext", "datetime.date.fromisoformat"),) and v[2] == (("param", "value"),):
+        rep.ok("R8.7", "DateConvertor.to_python uses date.fromisoformat on the whole segment")
+        return True
+    if not (v[0] == "call" and v[1] == ("ext", "datetime.date") and len(v[2]) == 3 and not v[3]):
+        return None
+    runs = []
+    pos = 0
+    try:
+        for op, av in P.parse(regex):
+            if op in (C.MAX_REPEAT, C.MIN_REPEAT) and av[0] == av[1]:
+                runs.append((pos, pos + av[0]))
+                pos += av[0]
+            elif op is C.LITERAL:
+                pos += 1
+            else:
+                return None
+    except Exception:
+        return None
+    if len(runs) != 3:
+        return None
+    got = []
+    for a in v[2]:
+        if not (a[0] == "call" and a[1] == ("builtin", "int") and len(a[2]) == 1 and a[2][0][0] == "sub" and a[2][0][1] == ("param", "value") and a[2][0][2][0] == "slice"):
+            rep.violation("R8.7", construct(tp, text=f"date field {show(a)[:50]}"), where(tp), "a date field is not int(value[a:b]) of the path segment")
+            return False
+        sl = a[2][0][2]
+        lo = 0 if sl[1] == NONE else (sl[1][1] if sl[1][0] == "const" else None)
+        hi = pos if sl[2] == NONE else (sl[2][1] if sl[2][0] == "const" else None)
+        got.append((lo, hi))
+    if got == runs:
+        rep.ok("R8.7", f"DateConvertor.to_python slices {got} = the year, month, day digit runs of {regex!r}")
+        return True
+    rep.violation("R8.7", construct(tp, text=f"date fields sliced at {got}"), where(tp),
+                  f"DateConvertor.to_python builds date(year, month, day) from the slices {got} but the digit runs of {regex!r} are {runs}: the path parameter is not the date the text denotes")
+    return False
